@@ -121,6 +121,10 @@ func (d *intDecoder) decodeStreamByte(s *Stream) ([]byte, error) {
 			if len(num) < 2 {
 				goto ERROR
 			}
+			if len(num) > 2 && num[1] == '0' {
+				// "-0" cannot be followed by a digit
+				return nil, errInvalidNumber(num, s.totalOffset())
+			}
 			return num, nil
 		case '0':
 			s.cursor++
@@ -178,6 +182,10 @@ func (d *intDecoder) decodeByte(buf []byte, cursor int64) ([]byte, int64, error)
 			num := buf[start:cursor]
 			if len(num) < 2 {
 				return nil, 0, errors.ErrUnexpectedEndOfJSON("number(integer)", cursor)
+			}
+			if len(num) > 2 && num[1] == '0' {
+				// "-0" cannot be followed by a digit
+				return nil, 0, errInvalidNumber(num, cursor)
 			}
 			return num, cursor, nil
 		case '1', '2', '3', '4', '5', '6', '7', '8', '9':
